@@ -24,18 +24,22 @@ def strip_cfg_test(src):
 env = {}
 spans = []
 
-def ev(expr):
+def ev(expr, src=""):
+    """value of a constant expression; a name that is not known yet is looked up as a `const` of the
+    same file (a constant defined through another constant is a harmless rewrite, not a broken tie)"""
     e = expr.strip()
     m = re.fullmatch(r'Duration::from_secs\((.*)\)', e, re.S)
-    if m: return ev(m.group(1)) * 10**9
+    if m: return ev(m.group(1), src) * 10**9
     m = re.fullmatch(r'Duration::from_millis\((.*)\)', e, re.S)
-    if m: return ev(m.group(1)) * 10**6
+    if m: return ev(m.group(1), src) * 10**6
     e = re.sub(r'\bas\s+(u64|usize|u32|u8|u16)\b', '', e)
     e = re.sub(r'(\d)_(\d)', r'\1\2', e)
     e = re.sub(r'(\d+)(u64|usize|u32|u8|u16)\b', r'\1', e)
     def name(m):
         n = m.group(0)
         if n in env: return str(env[n])
+        d = re.findall(r'(?:pub(?:\([a-z]+\))?\s+)?const\s+' + re.escape(n) + r'\s*:\s*[^=]+=\s*([^;]+);', src, re.S)
+        if len(d) == 1: return "(" + str(ev(d[0], src)) + ")"
         raise KeyError(n)
     e = re.sub(r'\b[A-Z][A-Z0-9_]*\b', name, e)
     if not re.fullmatch(r'[0-9xa-fA-F\s+\-*/()<>]*', e):
@@ -53,7 +57,7 @@ def const(lean_name, path, rust_name=None, pattern=None, group=1, duration=False
         sys.exit(3)
     m = ms[0]
     try:
-        val = ev(m.group(group))
+        val = ev(m.group(group), src)
     except Exception as ex:
         print(f"extract_consts: cannot evaluate {lean_name} in {path}: {ex}", file=sys.stderr)
         sys.exit(3)
@@ -109,15 +113,15 @@ const("BOOTSTRAP_RETRY_MAX_EXP", "src/action/bootstrap.rs", pattern=r'BASE\.pow\
 const("NAT_FRIENDLY_SEND", "src/action/bootstrap.rs", pattern=r'fn nat_friendly_send_duration\(\) -> Duration \{.*?(Duration::from_millis\([^)]*\))\s*\}', duration=True)
 const("BOOTSTRAP_THROTTLE_AFTER", "src/action/bootstrap.rs", pattern=r'if count > (PINGS_PER_BUCKET) \{')
 # --- socket.rs
-const("RECV_BUFFER_LEN", "src/socket.rs", pattern=r'let mut buffer = vec!\[0u8;\s*(\d+)\];')
+const("RECV_BUFFER_LEN", "src/socket.rs", pattern=r'let mut buffer = vec!\[0u8;\s*(\w+)\];')
 # --- handler.rs
 const("MAX_VALUES_V4", "src/handler.rs")
 const("MAX_VALUES_V6", "src/handler.rs")
 const("MAX_TOKEN_LEN", "src/action/lookup.rs")
 const("REPLY_NODES_PER_FAMILY", "src/handler.rs",
-      pattern=r'\.filter\(\|node\| node\.addr\(\)\.is_ipv4\(\)\)\s*\.take\((\d+)\)')
+      pattern=r'\.filter\(\|node\| node\.addr\(\)\.is_ipv4\(\)\)\s*\.take\((\w+)\)')
 const("REPLY_NODES_PER_FAMILY_V6", "src/handler.rs",
-      pattern=r'\.filter\(\|node\| node\.addr\(\)\.is_ipv6\(\)\)\s*\.take\((\d+)\)')
+      pattern=r'\.filter\(\|node\| node\.addr\(\)\.is_ipv6\(\)\)\s*\.take\((\w+)\)')
 # --- bencode.rs (pre-scan limits introduced by the F14 fix)
 const("BENCODE_MAX_DEPTH", "src/bencode.rs", rust_name="MAX_DEPTH")
 # --- message.rs error codes
